@@ -327,6 +327,42 @@ def pairwise(axes, order, base_rows=()):
     return [dict(zip(names, r)) for r in rows]
 
 
+def twise(axes, order, t=3):
+    """Deterministic greedy t-wise covering array: every combination of values of every t axes occurs in a row."""
+    names = list(order)
+    n = len(names)
+    vals = [axes[k] for k in names]
+    combos_idx = list(itertools.combinations(range(n), t))
+    need = set()
+    for idx in combos_idx:
+        for combo in itertools.product(*[range(len(vals[i])) for i in idx]):
+            need.add((idx, combo))
+    rows = []
+    while need:
+        idx, combo = min(need)
+        row = [None] * n
+        for i, v in zip(idx, combo):
+            row[i] = v
+        for i in range(n):
+            if row[i] is not None:
+                continue
+            fixed = [j for j in range(n) if row[j] is not None]
+            best, best_gain = 0, -1
+            for v in range(len(vals[i])):
+                gain = 0
+                for sub in itertools.combinations(fixed, t - 1):
+                    ids = tuple(sorted(sub + (i,)))
+                    if (ids, tuple(v if k == i else row[k] for k in ids)) in need:
+                        gain += 1
+                if gain > best_gain:
+                    best, best_gain = v, gain
+            row[i] = best
+        rows.append(tuple(row))
+        for idx in combos_idx:
+            need.discard((idx, tuple(row[i] for i in idx)))
+    return [dict((names[i], vals[i][r[i]]) for i in range(n)) for r in rows]
+
+
 # ------------------------------------------------------------------------------------------- shipped / generated
 SHIPPED_SMALL = ["tiny", "tiny-hard", "tiny-small", "small", "small-honeypot", "small-linear"]
 SHIPPED_ALL = SHIPPED_SMALL + ["medium", "medium-single-site", "medium-multi-site"]
@@ -553,6 +589,10 @@ def thorough_family():
         for i, ch in enumerate(pairwise(AXES, order)):
             sp = build(ch, name=f"pwT{r}-{i}")
             entries += _entries_for(sp, both=(i % 4 == 0))
+    # strength 3: every combination of values of every THREE axes occurs in some scenario (~500 rows)
+    for i, ch in enumerate(twise(AXES, AXIS_ORDER, 3)):
+        sp = build(ch, name=f"tw3-{i}")
+        entries += _entries_for(sp)
     for sp in fw_exhaustive_specs():
         entries += _entries_for(sp)
     for n in ["small-honeypot"]:
@@ -562,7 +602,7 @@ def thorough_family():
         sp["_path_only"] = True
         sp["name"] = n
         entries.append((dict(sp, name=n), "shipped"))
-    for sp in scale_specs("thorough")[5:]:
+    for sp in scale_specs("thorough")[len(scale_specs("quick")):]:
         entries += _entries_for(sp)
     entries.append(({"name": "gen180", "genparams": {"num_hosts": 180, "num_services": 3, "seed": 4,
                                                       "exploit_probs": 0.5, "host_discovery_value": 5},
